@@ -361,6 +361,9 @@ def normalise_tree(n):
         if r is not None:
             return normalise_tree(r)
     if k == "mcall":
+        r = control.for_each_to_for(n)
+        if r is not None:
+            return r
         r = control.combinator(n)
         if r is not None:
             return normalise_tree(r)
